@@ -224,6 +224,9 @@ def run(ctx):
                         'of one commit share an id and overwrite each other in the version manager\'s pool')
     ctx.floor(R5, n_gen, 2, 'call sites of generate_dv_id / generate_rowset_id')
 
+    from rules.c12 import heap_exit_rule
+    heap_exit_rule(ctx, prog, 'C07-R6')
+
 
 def __places(st):
     from mir import operand_places
